@@ -1,6 +1,7 @@
 package main
 
 import (
+	"os/exec"
 	"encoding/json"
 	"fmt"
 	"go/types"
@@ -365,9 +366,46 @@ func writeEvidence(spec *Spec, o *runOpts, loadS float64, results []*HarnessResu
 	if spec.Assumptions == nil {
 		ev["assumptions"] = []string{}
 	}
+	// which tree was examined
+	head, _ := exec.Command("git", "-C", repoDir, "rev-parse", "--short", "HEAD").Output()
+	dirty, _ := exec.Command("git", "-C", repoDir, "status", "--porcelain").Output()
+	ev["repo_head"] = strings.TrimSpace(string(head))
+	ev["repo_worktree_modified"] = len(strings.TrimSpace(string(dirty))) > 0
+	ev["params"] = tierParams(spec, o.tier)
+	ev["finished_at"] = time.Now().UTC().Format(time.RFC3339)
+	// keep a summary of the latest run of the other tier (this file is rewritten by every run)
+	evPath := filepath.Join(verifDir, "evidence", spec.Property+".json")
+	others := map[string]interface{}{}
+	if ob, err := os.ReadFile(evPath); err == nil {
+		var old map[string]interface{}
+		if json.Unmarshal(ob, &old) == nil {
+			if m, ok := old["other_tier_runs"].(map[string]interface{}); ok {
+				others = m
+			}
+			if ot, _ := old["tier"].(string); ot != "" && ot != o.tier {
+				sum := map[string]interface{}{"wall_s": old["wall_s"], "violations": old["violations"], "repo_head": old["repo_head"],
+					"repo_worktree_modified": old["repo_worktree_modified"], "finished_at": old["finished_at"], "params": old["params"]}
+				if oc, ok := old["coverage"].(map[string]interface{}); ok {
+					for _, k := range []string{"states", "transitions", "obligations", "queries", "solver_s", "traces_validated_against_impl", "inconclusive", "exhaustive"} {
+						sum[k] = oc[k]
+					}
+				}
+				others[ot] = sum
+			}
+		}
+	}
+	delete(others, o.tier)
+	ev["other_tier_runs"] = others
 	os.MkdirAll(filepath.Join(verifDir, "evidence"), 0o755)
 	b, _ := json.MarshalIndent(ev, "", " ")
 	os.WriteFile(filepath.Join(verifDir, "evidence", spec.Property+".json"), b, 0o644)
+}
+
+func tierParams(spec *Spec, tier string) map[string]int {
+	if t, ok := spec.Tiers[tier]; ok {
+		return t.Params
+	}
+	return nil
 }
 
 func round2(f float64) float64 { return float64(int(f*100+0.5)) / 100 }
